@@ -42,6 +42,14 @@ def _label_dict_for(edges, hide_targets):
     return d
 
 
+def _out_dict_for(model, hide_targets):
+    """target->labels dict; with hide_targets the vertices without outgoing edges are not keys."""
+    od = model.out_dict()
+    if hide_targets:
+        od = {u: nb for u, nb in od.items() if nb}
+    return od
+
+
 def build_root(root):
     from geometry_tools.automata import fsa
     _, route, arg, U = root
@@ -55,10 +63,10 @@ def build_root(root):
         if route == "deepcopy":
             f = copy.deepcopy(f)
         return f, model, U
-    if route == "out":
+    if route in ("out", "out_hidden"):
         edges = [tuple(e) for e in arg]
         model = M.from_label_dict(_label_dict_for(edges, False))
-        od = model.out_dict()
+        od = _out_dict_for(model, route == "out_hidden")
         f = fsa.FSA(od, start_vertices=[0], graph_dict=False)
         return f, model, U
     if route == "free":
@@ -245,8 +253,8 @@ def _source_dict(root):
     _, route, arg, U = root
     if route in ("graph", "graph_hidden"):
         return _label_dict_for([tuple(e) for e in arg], route == "graph_hidden"), True
-    if route == "out":
-        return M.from_label_dict(_label_dict_for([tuple(e) for e in arg], False)).out_dict(), False
+    if route in ("out", "out_hidden"):
+        return _out_dict_for(M.from_label_dict(_label_dict_for([tuple(e) for e in arg], False)), route == "out_hidden"), False
     return None
 
 
@@ -411,6 +419,10 @@ def run(ctx):
     # several vertices that appear only as targets (the library has to invent their rows)
     roots.append([["ctor", "graph_hidden", [(0, 1, "a"), (0, 2, "b")], U]])
     roots.append([["ctor", "graph_hidden", [(2, 0, "a"), (2, 1, "b")], U]])
+    roots.append([["ctor", "out_hidden", ROOT_GRAPHS[1], U]])
+    roots.append([["ctor", "out_hidden", [(0, 1, "a"), (0, 2, "b")], U]])
+    roots.append([["ctor", "out_hidden", [(2, 0, "a"), (2, 1, "b")], U]])
+    roots.append([["ctor", "out_hidden", [(0, 1, "a"), (0, 1, "b")], U]])
     roots.append([["ctor", "deepcopy", ROOT_GRAPHS[2], U]])
     roots.append([["ctor", "free", ["a"], {"V": ["", "a", "A"], "L": ["a", "A"]}]])
     roots.append([["ctor", "kbmag", [["a", "b"], [[2, 0], [2, 1]]], {"V": [1, 2, 3], "L": ["a", "b"]}]])
